@@ -120,3 +120,68 @@ func H_C14_group_form_is_fresh() {
 	ry, _ := c14raw(y, f)
 	verifAssert(ry == nondetString("y"), "Add does not alias its argument")
 }
+
+// value-argument constructs (literals, qualified identifiers, tags, custom groups, formatted
+// comments) in their three forms, and the Func variants in their method forms
+func H_C14_value_forms() {
+	f := NewFile("p")
+	var a, b, c *Statement
+	g := &Group{}
+	calls := 0
+	wantCalls := 0
+	switch nondetChoice("kind", 12) {
+	case 0:
+		v := nondetInt("v", -1000000, 1000000)
+		a, b, c = Lit(v), newStatement().Lit(v), g.Lit(v)
+	case 1:
+		s := nondetString("s")
+		a, b, c = Lit(s), newStatement().Lit(s), g.Lit(s)
+	case 2:
+		r := rune(nondetInt("r", 0, 0x10ffff))
+		a, b, c = LitRune(r), newStatement().LitRune(r), g.LitRune(r)
+	case 3:
+		v := byte(nondetInt("b", 0, 255))
+		a, b, c = LitByte(v), newStatement().LitByte(v), g.LitByte(v)
+	case 4:
+		impSummaries()
+		p, n := leadPath(0), nondetString("name")
+		a, b, c = Qual(p, n), newStatement().Qual(p, n), g.Qual(p, n)
+	case 5:
+		s := nondetString("s")
+		a, b, c = Commentf("%s", s), newStatement().Commentf("%s", s), g.Commentf("%s", s)
+		want, _ := c14raw(Comment(s), f)
+		got, _ := c14raw(a, f)
+		verifAssert(got == want, "Commentf is Comment of the formatted text")
+	case 6:
+		k, v := nondetString("k"), nondetString("val")
+		a, b, c = Tag(map[string]string{k: v}), newStatement().Tag(map[string]string{k: v}), g.Tag(map[string]string{k: v})
+	case 7:
+		o := Options{Open: nondetString("open"), Close: nondetString("close"), Separator: nondetString("sep"), Multi: nondetBool("multi")}
+		x, y := &symCode{id: "a0"}, &symCode{id: "a1"}
+		a, b, c = Custom(o, x, y), newStatement().Custom(o, x, y), g.Custom(o, x, y)
+	case 8:
+		cb := func() interface{} { calls++; return nondetInt("v", -1000, 1000) }
+		a, b, c = LitFunc(cb), newStatement().LitFunc(cb), g.LitFunc(cb)
+		wantCalls = 3
+	case 9:
+		cb := func() rune { calls++; return rune(nondetInt("r", 32, 126)) }
+		a, b, c = LitRuneFunc(cb), newStatement().LitRuneFunc(cb), g.LitRuneFunc(cb)
+		wantCalls = 3
+	case 10:
+		cb := func() byte { calls++; return byte(nondetInt("b", 0, 255)) }
+		a, b, c = LitByteFunc(cb), newStatement().LitByteFunc(cb), g.LitByteFunc(cb)
+		wantCalls = 3
+	case 11:
+		cb := func(s *Statement) { calls++; s.Id(nondetString("name")) }
+		a, b, c = Do(cb), newStatement().Do(cb), g.Do(cb)
+		wantCalls = 3
+	}
+	verifAssert(calls == wantCalls, "each constructing call runs its callback exactly once, immediately")
+	ra, _ := c14raw(a, f)
+	rb, _ := c14raw(b, f)
+	rc, _ := c14raw(c, f)
+	verifAssert(calls == wantCalls, "rendering never re-runs a callback")
+	verifObserve("out", ra)
+	verifAssert(ra == rb && ra == rc, "the three forms render identically")
+	verifAssert(len(g.items) == 1 && verifSameObject(g.items[0], c), "the *Group form appends the new statement and returns it")
+}
